@@ -205,7 +205,11 @@ def r2_mutators(ctx, repo, clip_params):
                 def res(n):
                     return text(canon(n, defs)) if n is not None else ""
                 if res(lo_a) != "%s['bounds'][0]" % pv or res(hi_a) != "%s['bounds'][1]" % pv:
-                    bad = bad or (a, "the mutation of parameter %s is clipped to (%s, %s), not to (%s['bounds'][0], %s['bounds'][1])" % (iv, res(lo_a), res(hi_a), pv, pv))
+                    known_other = all("['bounds']" in x_ or x_.replace(".", "", 1).replace("-", "", 1).isdigit() for x_ in (res(lo_a), res(hi_a)))
+                    if known_other:
+                        bad = bad or (a, "the mutation of parameter %s is clipped to (%s, %s), not to (%s['bounds'][0], %s['bounds'][1])" % (iv, res(lo_a), res(hi_a), pv, pv))
+                    else:
+                        unresolved = unresolved or (a, "the clip bounds (%s, %s) of the mutation are not resolved" % (res(lo_a), res(hi_a)))
                 if text(a.args[0]) != "%s[%s]" % (parent, iv):
                     bad = bad or (a, "the mutated coordinate is %s, not the parent's coordinate %s" % (text(a.args[0]), iv))
             elif isinstance(a, ast.Call) and isinstance(a.func, ast.Name) and not a.func.id[:1].isupper() and a.func.id not in ("min", "max", "float", "int", "round", "abs"):
